@@ -8,8 +8,11 @@ MECH = {"C09": ("bind", "guard", "AddBinding check/insert window"),
         "C20": ("usecase", "overwrite", "use-case copy/store window")}
 
 
-def execute(prop, tier, sc, topo):
-    mech, kind, what = MECH[prop]
+MECH2 = {"entity": ("entity", "overwrite", "device entity list read-modify-write (RemoveEntity / AddEntity)")}
+
+
+def execute(prop, tier, sc, topo, mech=None):
+    mech, kind, what = MECH2[mech] if mech else MECH[prop]
     res = {"viol": 0}
     scheds = []
     mcstates = 0
@@ -25,11 +28,14 @@ def execute(prop, tier, sc, topo):
             raise Inconclusive("schedule enumeration failed:\n" + out[-1500:])
         mcstates += tlc_stats(out)["distinct"]
         scheds += printed(out, "S")
+    if mech == "entity":
+        # where the removal parks: inside its clean-up (use-case removal), or behind it
+        scheds = [dict(x, variant=v) for v in (0, 1) for x in scheds]
     if mech == "usecase":
         # the first process adds a use case, changes the availability of an existing one, or removes it
         scheds = [dict(x, variant=v) for v in (0, 1, 2) for x in scheds]
     open(sc.path("topo.json"), "w").write(topo)
-    sf, tf = sc.path("race_scheds.ndjson"), sc.path("race_trace.ndjson")
+    sf, tf = sc.path("race_scheds_%s.ndjson" % mech), sc.path("race_trace_%s.ndjson" % mech)
     open(sf, "w").write("\n".join(json.dumps(x) for x in scheds) + "\n")
     run_harness(["race-replay", "-mech", mech, "-topo", sc.path("topo.json"), "-in", sf, "-out", tf], timeout=1800)
     code, out = run_tlc("RaceTrace.tla", cfg_text("Spec", {}, invariants=["Final"]), timeout=600, env={"VERIF_TRACE": tf}, light=True)
